@@ -4,6 +4,8 @@ import (
 	"bytes"
 	"fmt"
 	"io"
+	"os"
+	"runtime"
 	"sort"
 	"strings"
 
@@ -130,6 +132,29 @@ type RefCounter struct {
 	Poisoned int
 }
 
+var rcTraceOn = os.Getenv("VERIF_RCTRACE") != ""
+
+// rcTrace prints one counting event with its call site (debugging aid).
+func rcTrace(ev string, i *gkvlite.Item, n int) {
+	if !rcTraceOn {
+		return
+	}
+	pcs := make([]uintptr, 8)
+	k := runtime.Callers(3, pcs)
+	fr := runtime.CallersFrames(pcs[:k])
+	var where []string
+	for {
+		f, more := fr.Next()
+		if strings.Contains(f.Function, "gkvlite.") {
+			where = append(where, fmt.Sprintf("%s:%d", f.Function[strings.LastIndex(f.Function, ".")+1:], f.Line))
+		}
+		if !more || len(where) >= 4 {
+			break
+		}
+	}
+	fmt.Fprintf(os.Stderr, "rc T%d %-6s %p key=%q val=%q -> %d  %s\n", ThreadID(), ev, i, i.Key, i.Val, n, strings.Join(where, " < "))
+}
+
 // die is called when an item's count reaches zero.
 func (rc *RefCounter) die(i *gkvlite.Item) {
 	rc.Dead[i] = true
@@ -170,6 +195,7 @@ func (w *World) callbacks() gkvlite.StoreCallbacks {
 			if rc != nil {
 				rc.Counts[it] = 1
 				rc.Allocs++
+				rcTrace("alloc", it, 1)
 			}
 			return it
 		}
@@ -182,6 +208,7 @@ func (w *World) callbacks() gkvlite.StoreCallbacks {
 				}
 				rc.Counts[i]++
 				rc.Adds++
+				rcTrace("addref", i, rc.Counts[i])
 			}
 		}
 	}
@@ -190,6 +217,7 @@ func (w *World) callbacks() gkvlite.StoreCallbacks {
 			if rc != nil {
 				rc.Counts[i]--
 				rc.Decs++
+				rcTrace("decref", i, rc.Counts[i])
 				if rc.Counts[i] < 0 && len(rc.Neg) < 4 {
 					rc.Neg = append(rc.Neg, fmt.Sprintf("count of item %q dropped to %d during %s", i.Key, rc.Counts[i], w.curLabel))
 				}
